@@ -20,7 +20,9 @@ class Prop:
             "(b) co-simulation scenarios: 1-4 peers (with/without endpoint, with/without session; sessions by handshakes in both roles), "
             "nested/overlapping v4+v6 allowed-IPs from a dense family, TUN batches of 1..128 packets with every version nibble, lengths on "
             "the header and MTU boundaries and beyond the MTU, destinations on every prefix boundary +-1, MTU changes by TUN event, roaming, "
-            "key expiry, handshake rate limit; every datagram the device emits is opened with the harness's own implementation: endpoint, "
+            "key expiry, handshake rate limit; source-port-only moves of a peer (roaming keepalive, response, initiation from the same address "
+            "and another port); racing responses (3 x 40 rounds + random: two authenticating responses that differ in the Sender word and "
+            "the source address, one receive batch, two handshake workers); every datagram the device emits is opened with the harness's own implementation: endpoint, "
             "receiver index, counter, length, plaintext; non-trivial = scenario in which at least one TUN packet was transmitted and at "
             "least one was not (unroutable / malformed / staged), or a pad sweep; distinct by content hash")
     assumptions = ["order of datagrams is compared per peer; between peers it is not determined (map iteration, one sender goroutine per peer)",
@@ -102,8 +104,8 @@ class Prop:
         return fs
 
     def shrink_candidates(self, case):
-        if case.get("kind") == "crashed" or (case.get("gen") or "").startswith(("real-bind", "flood-")):
-            return    # real-bind scenarios are regenerated by the harness (rounds), and which receive batch is mixed is up to the kernel
+        if case.get("kind") == "crashed" or (case.get("gen") or "").startswith(("real-bind", "flood-", "race-")):
+            return    # race-responses: a statistical pass (which worker wins is up to the scheduler); real-bind scenarios are regenerated by the harness (rounds), and which receive batch is mixed is up to the kernel
         if case.get("kind") == "pad":
             lens = case["lens"]
             n = len(lens)
@@ -165,11 +167,31 @@ class Prop:
         pos = (case.get("_pos") or {}).get(str(f.get("kind")), f.get("pos", 0))
         k = evs[pos]["k"] if pos < len(evs) else "?"
         if pos < len(evs) and any(e["k"] == "conf" for e in evs[:pos + 1]) and any(
-                o["ep"] >= 97 or (k == "conf") for o in evs[pos].get("obs") or []):
+                97 <= o["ep"] <= 99 or o["ep"] == 255 or (k == "conf") for o in evs[pos].get("obs") or []):
             return "datagram-follows-an-endpoint-line-of-the-devices-own-key-section"
         if pos < len(evs) and k == "replayinit" and evs[pos].get("obs"):
             return "replayed-latest-initiation-answered:endpoint-moves-to-the-replayer"
         if pos < len(evs):
+            # where each peer's endpoint is, and which response of a race was refused, as far as the harness acted
+            cur = {i: e for i, e in enumerate(case.get("eps") or [])}
+            refused = {}
+            for e in evs[:pos + 1]:
+                if e["k"] in ("refhs", "anshs", "roam", "conf"):
+                    cur[e.get("peer", 0)] = e.get("ep", 0)
+                    if e["k"] != "roam":
+                        refused.pop(e.get("peer", 0), None)
+                elif e["k"] == "anshs2":
+                    w = e.get("win", 0)
+                    cur[e.get("peer", 0)] = e.get("ep2", 0) if w else e.get("ep", 0)
+                    refused[e.get("peer", 0)] = (e.get("ridx", 0) if w else e.get("ridx2", 0), abs(e.get("ep", 0) - e.get("ep2", 0)) == 100)
+            for o in evs[pos].get("obs") or []:
+                if o["kind"] == 4 and o["peer"] and refused.get(o["peer"] - 1, (None, 0))[0] == o["rcv"]:
+                    if refused[o["peer"] - 1][1]:   # the two responses came from one address: index of one, port of the other
+                        return "receiver-index-of-one-response-port-of-the-other:racing-responses-from-one-address:after-%s" % k
+                    return "receiver-index-of-a-refused-response:racing-responses:after-%s" % k
+            for o in evs[pos].get("obs") or []:
+                if o["kind"] in (1, 2, 4) and o["peer"] and abs(o["ep"] - cur.get(o["peer"] - 1, 0)) == 100:
+                    return "datagram-to-the-old-port-after-authenticated-packet-from-the-new-port:after-%s" % k
             obs = evs[pos].get("obs") or []
             for o in obs:
                 raw = base64.b64decode(o.get("raw") or "")
@@ -217,7 +239,7 @@ class Prop:
             if e["k"] in ("tun", "tunf"):
                 d["pkt_lens"] = [len(base64.b64decode(p or "")) for p in (e.get("pkts") or [])][:8]
             else:
-                d.update({k: e[k] for k in ("peer", "mtu", "ep", "ridx") if k in e})
+                d.update({k: e[k] for k in ("peer", "mtu", "ep", "ridx", "ep2", "ridx2", "swap", "win") if k in e})
             d["emitted"] = [{"kind": o["kind"], "peer": o["peer"], "ep": o["ep"], "rcv": o["rcv"], "ctr": o["ctr"], "len": o["len"]}
                             for o in (e.get("obs") or [])][:6]
             out["events"].append(d)
